@@ -18,6 +18,7 @@
 #include <shark/ObjectiveFunctions/BoxConstraintHandler.h>
 #include <shark/Core/Random.h>
 #include <cstdio>
+#include <cstdlib>
 #include <fstream>
 #include <iostream>
 #include <sstream>
@@ -128,6 +129,79 @@ static std::string penalize(std::istringstream& is) {
 	return o.str();
 }
 
+// direct indicator call:  I <ind> <d> <nF> <nA> <K> <useRef> r1..rd  front points  archive points
+//   (for ind = N:  I N <d> <nF> <nA> <K> <nZ> z(0,0)..z(nZ-1,d-1) front points archive points; reference points are
+//    handed to setReferencePoints, which normalises them)
+// output: lcs=i1,i2,..   (the list leastContributors(front, archive, K) returned, in the order returned)
+static double rd(std::istringstream& is) { std::string t; is >> t; return std::strtod(t.c_str(), 0); }
+static std::string hexd(double v) { char b[64]; std::snprintf(b, sizeof b, "%a", v); return b; }
+
+// The plane solver inside NSGA3Indicator::computeNormalizer is a Section variable (`solve`) of the model.  Its answer for
+// this input is re-derived here: the statements of leastContributors / computeNormalizer up to the solver call, verbatim,
+// then the same library solver.  Output: " solve=none" (rank deficient) or " solve=<w in hex>", and the corner indices
+// (the model computes them too; tools/c14.py compares).
+static std::string nsga3Solve(std::vector<RealVector> const& front, std::vector<RealVector> const& archive) {
+	std::vector<RealVector> points;
+	for (auto const& point : archive) points.push_back(point);
+	for (auto const& point : front) points.push_back(point);
+	RealVector ideal = points.front();
+	for (auto& point : points) noalias(ideal) = min(ideal, point);
+	for (auto& point : points) noalias(point) = point - ideal;
+	double epsilon = 0.00001;
+	std::size_t dimensions = points.front().size();
+	RealMatrix cornerPoints(dimensions, dimensions, 0.0);
+	std::vector<std::size_t> corners;
+	for (std::size_t dim = 0; dim != dimensions; ++dim) {
+		KeyValuePair<double, std::size_t> best(std::numeric_limits<double>::max(), 0);
+		for (std::size_t i = 0; i != points.size(); ++i) {
+			auto const& point = points[i];
+			double dist = epsilon * sum(point) + (1 - epsilon) * point[dim];
+			best = std::min(best, makeKeyValuePair(dist, i));
+		}
+		noalias(row(cornerPoints, dim)) = points[best.value];
+		corners.push_back(best.value);
+	}
+	RealMatrix A = trans((cornerPoints | 1)) % (cornerPoints | 1);
+	RealVector b = trans((cornerPoints | 1)) % blas::repeat(-1.0, dimensions);
+	blas::symm_pos_semi_definite_solver<RealMatrix> solver(A);
+	std::string out = " corners=" + join(corners) + " solve=";
+	if (solver.rank() == dimensions) {
+		solver.solve(b, blas::left());
+		for (std::size_t i = 0; i < dimensions; ++i) out += (i ? "," : "") + hexd(b(i));
+	} else out += "none";
+	return out;
+}
+
+static std::string indicatorCase(std::istringstream& is) {
+	std::string ind; std::size_t d, nF, nA, K, aux;
+	is >> ind >> d >> nF >> nA >> K >> aux;
+	std::size_t nr = ind == "N" ? aux * d : d;
+	std::vector<double> head(nr); for (std::size_t i = 0; i < nr; ++i) head[i] = rd(is);
+	std::vector<RealVector> F(nF, RealVector(d)), A(nA, RealVector(d));
+	for (std::size_t i = 0; i < nF; ++i) for (std::size_t j = 0; j < d; ++j) F[i](j) = rd(is);
+	for (std::size_t i = 0; i < nA; ++i) for (std::size_t j = 0; j < d; ++j) A[i](j) = rd(is);
+	std::vector<std::size_t> r;
+	std::string extra;
+	try {
+		if (ind == "H") {
+			HypervolumeIndicator h;
+			if (aux) { RealVector ref(d); for (std::size_t j = 0; j < d; ++j) ref(j) = head[j]; h.setReference(ref); }
+			r = h.leastContributors(F, A, K);
+		} else if (ind == "E") { AdditiveEpsilonIndicator e; r = e.leastContributors(F, A, K); }
+		else if (ind == "C") { CrowdingDistance c; r = c.leastContributors(F, A, K); }
+		else if (ind == "N") {
+			NSGA3Indicator n3; std::vector<RealVector> Z(aux, RealVector(d));
+			for (std::size_t i = 0; i < aux; ++i) for (std::size_t j = 0; j < d; ++j) Z[i](j) = head[i * d + j];
+			n3.setReferencePoints(Z);
+			r = n3.leastContributors(F, A, K);
+			extra = nsga3Solve(F, A);
+		} else return "BADIND";
+	}
+	catch (shark::Exception const&) { return "EXC"; }
+	catch (std::exception const&) { return "STDEXC"; }
+	return "lcs=" + join(r) + extra;
+}
+
 int main(int argc, char** argv) {
 	std::ifstream in(argv[1]);
 	std::string line;
@@ -135,6 +209,7 @@ int main(int argc, char** argv) {
 		std::istringstream is(line);
 		std::string cmd; if (!(is >> cmd)) { std::cout << "\n"; continue; }
 		if (cmd == "P") { std::cout << penalize(is) << std::endl; continue; }
+		if (cmd == "I") { std::cout << indicatorCase(is) << std::endl; continue; }
 		std::string ind; std::size_t d, n, mu; int useRef;
 		is >> ind >> d >> n >> mu >> useRef;
 		RealVector ref(d); for (std::size_t i = 0; i < d; ++i) is >> ref(i);
